@@ -316,7 +316,8 @@ def run(ctx):
     ctx.check_props()
     ctx.build(["Script/Corr.vo"])
     quick = ctx.tier == "quick"
-    n_prog = 160 if quick else 2500
+    scale = float(os.environ.get("OSVERIF_C01_SCALE", "1") or 1)      # development aid (self-tests under load); default 1
+    n_prog = int((160 if quick else 1800) * scale)
     n_sets = 3 if quick else 4
     rng = ctx.rng
     programs = []
@@ -332,7 +333,7 @@ def run(ctx):
     stats = collections.Counter()
     wd = c01_run.Workdir()
     c01_run.quiet_ort()
-    n_oracle = 80 if quick else 1000
+    n_oracle = int((80 if quick else 600) * scale)
     input_seeds = [rng.getrandbits(64) for _ in programs]
     try:
         decorated = decorate_all(wd, programs)
